@@ -72,3 +72,152 @@ Proof.
 Qed.
 
 End HistoryFull.
+
+(* ---------------------------------------------------------------------------------------------------
+   C05 history invariant: accumulator + tracked membership proofs through histories.
+   The steps for mutations and batch mutations are proved; the step for an append uses the hypothesis
+   `append_exact` (= the still open general statement about batch_update_from_append), so the theorem
+   below is history_inv MODULO that one statement. *)
+Section TrackedHistory.
+Variable D : Type.
+Variable H : D -> D -> D.
+Variable deq : D -> D -> bool.
+Variable dflt : D.
+Hypothesis deq_spec : forall x y, deq x y = true <-> x = y.
+
+Definition append_exact : Prop :=
+  forall (ls : list D) (d : D) (idxs : list Z),
+    zlength ls + 1 < 2 ^ 63 -> Forall (fun i => 0 <= i < zlength ls) idxs ->
+    exists md, batch_update_from_append D H (map (path D H dflt ls) idxs) idxs (zlength ls) d (peaks_spec D H dflt ls) =
+               Some (map (path D H dflt (ls ++ [d])) idxs, md).
+
+Definition tstate : Type := (accumulator D * list (Z * mproof D))%type.
+
+Inductive top : Type :=
+| TAppend (d : D) (track : bool)
+| TMutate (i : Z) (d : D) (mp : mproof D)
+| TBatch (lms : list (leaf_mutation D)).
+
+Definition terase (o : top) : mop D :=
+  match o with
+  | TAppend d _ => MAppend D d
+  | TMutate i d mp => MMutate D i d mp
+  | TBatch lms => MBatch D lms
+  end.
+
+Definition retrack (tr : list (Z * mproof D)) (mps : list (mproof D)) : list (Z * mproof D) :=
+  combine (map fst tr) mps.
+
+Definition tstep (st : tstate) (o : top) : option tstate :=
+  let '(a, tr) := st in
+  match o with
+  | TAppend d track =>
+    let? (mps, _) := batch_update_from_append D H (map snd tr) (map fst tr) (fst a) d (snd a) in
+    let? (a', mp) := acc_append D H a d in
+    Some (a', retrack tr mps ++ (if track then [(fst a, mp)] else []))
+  | TMutate i d mp =>
+    let? (mps, _) := batch_update_from_leaf_mutation D H deq (map snd tr) (map fst tr) (i, d, mp) in
+    let? a' := acc_mutate_leaf D H a (i, d, mp) in
+    Some (a', retrack tr mps)
+  | TBatch lms =>
+    let? (r, _) := batch_mutate_leaf_and_update_mps D H deq a (map snd tr) (map fst tr) lms in
+    Some (fst r, retrack tr (snd r))
+  end.
+
+(* the accumulator commits to ls and every tracked proof is the authentication path of its leaf *)
+Definition tinv (st : tstate) (ls : list D) : Prop :=
+  commits D H dflt (fst st) ls /\
+  Forall (fun t => 0 <= fst t < zlength ls /\ snd t = path D H dflt ls (fst t)) (snd st).
+
+Lemma tracked_paths ls (tr : list (Z * mproof D)) :
+  Forall (fun t => 0 <= fst t < zlength ls /\ snd t = path D H dflt ls (fst t)) tr ->
+  map snd tr = map (path D H dflt ls) (map fst tr) /\ Forall (fun i => 0 <= i < zlength ls) (map fst tr).
+Proof.
+  induction tr as [|t tr IH]; intros Hall; [split; [reflexivity|constructor]|].
+  pose proof (Forall_inv Hall) as [Hr Hp]. destruct (IH (Forall_inv_tail Hall)) as [IH1 IH2].
+  cbn [map]. split; [f_equal; [exact Hp|exact IH1]|constructor; assumption].
+Qed.
+
+Lemma retrack_inv (ls ls' : list D) (tr : list (Z * mproof D)) :
+  zlength ls <= zlength ls' -> Forall (fun i => 0 <= i < zlength ls) (map fst tr) ->
+  Forall (fun t => 0 <= fst t < zlength ls' /\ snd t = path D H dflt ls' (fst t))
+         (retrack tr (map (path D H dflt ls') (map fst tr))).
+Proof.
+  intros Hle. unfold retrack. induction (map fst tr) as [|i is IH]; intros Hall; [constructor|].
+  cbn [map combine]. constructor.
+  - cbn [fst snd]. pose proof (Forall_inv Hall) as Hi. cbv beta in Hi. split; [lia|reflexivity].
+  - apply IH. exact (Forall_inv_tail Hall).
+Qed.
+
+Theorem tstep_inv (Happ : append_exact) st ls o :
+  tinv st ls -> zlength ls < 2 ^ 63 -> mop_valid D H dflt ls (terase o) ->
+  exists st', tstep st o = Some st' /\ tinv st' (apply D ls (erase D (terase o))) /\
+              zlength (apply D ls (erase D (terase o))) < 2 ^ 63.
+Proof.
+  intros [Hc Htr] Hl Hv. destruct st as [a tr]. cbn [fst snd] in *. unfold commits in Hc. subst a.
+  destruct (tracked_paths ls tr Htr) as [Emps Hidx].
+  destruct o as [d track|i d mp|lms]; cbn [terase erase apply tstep fst snd] in *.
+  - destruct Hv as [Hov _]. cbn [erase op_valid] in Hov. apply Z.ltb_lt in Hov.
+    destruct (Happ ls d (map fst tr) Hov Hidx) as (md & Hb).
+    rewrite Emps. rewrite Hb. cbn [obind].
+    rewrite (acc_append_spec D H dflt ls d Hov). cbn [obind].
+    eexists. split; [reflexivity|]. split; [split|].
+    + reflexivity.
+    + cbn [snd]. apply Forall_app. split.
+      * apply (retrack_inv ls); [rewrite zlength_app; change (zlength [d]) with 1; lia|exact Hidx].
+      * destruct track; [|constructor]. constructor; [|constructor]. cbn [fst snd].
+        rewrite zlength_app. change (zlength [d]) with 1. pose proof (zlength_nonneg ls). split; [lia|reflexivity].
+    + rewrite zlength_app. change (zlength [d]) with 1. exact Hov.
+  - destruct Hv as [Hov Hp]. cbn [erase op_valid] in Hov. apply in_range_spec in Hov. subst mp.
+    destruct (batch_update_from_leaf_mutation_spec D H deq dflt deq_spec ls i d (map fst tr) Hov Hl Hidx) as (md & Hb & _).
+    rewrite Emps.
+    match goal with |- context [batch_update_from_leaf_mutation ?a ?b ?c ?e ?f ?g] =>
+      replace (batch_update_from_leaf_mutation a b c e f g) with
+        (Some (map (path D H dflt (upd ls i d)) (map fst tr), md)) by (symmetry; exact Hb) end.
+    cbn [obind].
+    pose proof (step_mutate D H deq dflt (zlength ls, peaks_spec D H dflt ls) ls i d eq_refl Hov Hl) as Hm.
+    cbn [acc_step] in Hm.
+    match goal with |- context [acc_mutate_leaf ?a ?b ?c ?e] =>
+      replace (acc_mutate_leaf a b c e) with (Some (zlength (upd ls i d), peaks_spec D H dflt (upd ls i d))) by (symmetry; exact Hm) end.
+    cbn [obind].
+    eexists. split; [reflexivity|]. split; [split|].
+    + reflexivity.
+    + cbn [snd]. apply (retrack_inv ls); [rewrite zlength_upd; lia|exact Hidx].
+    + rewrite zlength_upd. exact Hl.
+  - destruct Hv as [Hov Hpr]. cbn [erase op_valid] in Hov. apply andb_true_iff in Hov. destruct Hov as [Hdist Hrange].
+    assert (Hin : inrange D ls (map fst lms)).
+    { unfold inrange. apply Forall_forall. intros m Hm. rewrite forallb_forall in Hrange.
+      specialize (Hrange m Hm). apply in_range_spec in Hrange. exact Hrange. }
+    destruct (bmlu_spec D H deq dflt deq_spec ls Hl (map fst lms) (map fst tr) Hin Hdist Hidx) as (md & Hb & _).
+    rewrite (with_proofs_id D H dflt ls lms Hpr) in Hb. rewrite Emps.
+    match goal with |- context [batch_mutate_leaf_and_update_mps ?a ?b ?c ?e ?f ?g ?h] =>
+      replace (batch_mutate_leaf_and_update_mps a b c e f g h) with
+        (Some (zlength ls, peaks_spec D H dflt (apply_muts D ls (map fst lms)),
+               map (path D H dflt (apply_muts D ls (map fst lms))) (map fst tr), md)) by (symmetry; exact Hb) end.
+    cbn [obind fst snd].
+    eexists. split; [reflexivity|]. split; [split|].
+    + cbn [fst]. unfold commits. rewrite zlength_apply_muts. reflexivity.
+    + cbn [snd]. apply (retrack_inv ls); [rewrite zlength_apply_muts; lia|exact Hidx].
+    + rewrite zlength_apply_muts. exact Hl.
+Qed.
+
+Fixpoint trun (st : tstate) (ops : list top) : option tstate :=
+  match ops with
+  | [] => Some st
+  | o :: r => match tstep st o with Some st' => trun st' r | None => None end
+  end.
+
+(* history_inv (modulo append_exact): after any valid history every tracked proof is the authentication path
+   of its leaf in the current list, and the accumulator commits to that list *)
+Theorem history_inv (Happ : append_exact) : forall ops st ls,
+  tinv st ls -> zlength ls < 2 ^ 63 -> mops_valid D H dflt ls (map terase ops) ->
+  exists st', trun st ops = Some st' /\ tinv st' (run D ls (map (erase D) (map terase ops))).
+Proof.
+  induction ops as [|o ops IH]; intros st ls Hi Hl Hv.
+  - exists st. split; [reflexivity|exact Hi].
+  - cbn [map mops_valid] in Hv. destruct Hv as [Ho Hv].
+    destruct (tstep_inv Happ st ls o Hi Hl Ho) as (st1 & Hs & Hi1 & Hl1).
+    cbn [trun map run]. rewrite Hs. apply IH; assumption.
+Qed.
+
+End TrackedHistory.
